@@ -838,6 +838,11 @@ func (o *LivelockOracle) AfterOp(r *Run, op Op) {
 					// every pod of the evicted workloads that allocate binds again is a fractional / gpu-memory pod opening
 					// GPU groups (and their reservation pods) on the node the reclaimer was nominated on
 					rule = "lasso_nomination_lost_to_fractional_victims"
+				} else if lost && regained {
+					// the general shape of the two classes above: reclaim/preempt evicts workload V to nominate X, X's nomination
+					// does not hold the capacity across cycles, allocate binds V's recreated pods (whole-GPU and fractional ones)
+					// first, X does not fit again and V is evicted again
+					rule = "lasso_nomination_lost_victims_rebound"
 				}
 			}
 			r.Fail("C15", rule, "closed system: the cluster state after round %d equals the state after round %d although %d evictions happened in between (eviction livelock)", o.round, prev, ev)
